@@ -122,8 +122,6 @@ M = [
      "bt/backtest.py", "        min_outlay = pd.DataFrame({\"pos\": outlaysp, \"neg\": outlaysn}).min(axis=1)", "        min_outlay = pd.DataFrame({\"pos\": outlaysp, \"neg\": outlaysn}).max(axis=1)"),
     ("c18_transactions_drop_closing_trades", "C18", "trades that flatten a position are dropped from the transaction list",
      "bt/core.py", "        trades = trades[trades != 0].unstack().dropna()", "        trades = trades[(trades != 0) & ~((positions == 0) & (trades < 0))].unstack().dropna()"),
-    ("c19_lazy_child_not_caught_up", "C01,C19", "lazily created child is not brought up to date",
-     "bt/core.py", "            # update to bring up to speed\n            c.update(self.now)", "            # update to bring up to speed\n            pass"),
     ("c19_lazy_child_integer_default", "C19", "children attached later do not inherit the position mode",
      "bt/core.py", "                    c._set_root(self.root)\n                    c.use_integer_positions(self.integer_positions)", "                    c._set_root(self.root)\n                    if dc:\n                        c.use_integer_positions(self.integer_positions)"),
     ("c19_strategy_column_missing", "C19,C09", "sub-strategy price not published when the child holds no capital",
